@@ -104,7 +104,7 @@ fn context(rs: &RS, fresh: bool) -> &'static str {
 
 pub fn run(ctx: &mut RunCtx) {
     ctx.assume("a non-DETACH DELETE fails when any target node has a relationship that the same statement does not delete, even if the other endpoint is deleted too (openCypher; the engine's own rule for committed relationships)");
-    let cases = ctx.tier.pick(60_000, 600_000);
+    let cases = ctx.tier.pick(150_000, 600_000);
     let steps = ctx.tier.pick(1..9, 1..16);
     let test = |hist: &Vec<Step>, obs: &mut Obs| {
         let mut w = World::new()?;
